@@ -41,6 +41,7 @@ func (prog *Program) MethodValue(sel *types.Selection) *Function {
 	}
 
 	var b builder
+	verifTraceStart(&b, nil)
 
 	m := func() *Function {
 		prog.methodsMu.Lock()
